@@ -102,7 +102,7 @@ Theorem alias_exact o doc nss t T body f v b :
   applicable doc t T = true -> alias_of (namespace_of nss t) T = Some body ->
   has_type_b (ns_env (namespace_of nss t)) f body v = Some b -> Ref o doc t T v = b.
 Proof.
-  intros Hwf Hd. eapply alias_exact_sound; [exact Hwf|apply namespace_of_decls; exact Hd].
+  intros Hwf Hd. eapply alias_exact_sound; [exact Hwf|apply namespace_of_decls; exact Hd|reflexivity].
 Qed.
 
 Theorem alias_present o doc nss t T td :
